@@ -251,6 +251,22 @@ func (i *interpreter) sprintf(fr *frame, format value, args []value) value {
 				av = s
 			}
 		}
+		if tm, isT := av.(*smt.Term); isT && tm.W > 0 && (spec == "%d" || spec == "%v") {
+			if ai, isI := arg.(iface); isI {
+				if w, signed, ok := intInfo(ai.t); ok {
+					sp := i.prog.ImportedPackage("strconv")
+					var r value
+					if signed {
+						r = call(i, fr, 0, sp.Func("FormatInt"), []value{norm(types.Typ[types.Int64], i.ctx.Resize(tm, 64, true)), 10})
+					} else {
+						r = call(i, fr, 0, sp.Func("FormatUint"), []value{norm(types.Typ[types.Uint64], i.ctx.Resize(tm, 64, false)), 10})
+					}
+					_ = w
+					out = append(out, strBytes(r)...)
+					continue
+				}
+			}
+		}
 		switch x := av.(type) {
 		case sstr:
 			switch {
